@@ -122,8 +122,9 @@ Fixpoint list_loop (dflt : str) (lastmodified : option Z) (ps : list iplan) : li
 Definition list_model (dflt : str) (ps : list iplan) : list finfo := list_loop dflt None ps.
 Definition list_names (dflt : str) (ps : list iplan) : list str := map fi_filename (list_model dflt ps).
 
-(* getinfo(name): name = remove_trailing_slash(name);
-   next(filter(lambda member: member.filename == name, self.files), None); None -> KeyError.
+(* getinfo(name): first the name as given (a stored name may itself end with a slash):
+     next(filter(lambda member: member.filename == name, self.files), None)
+   and, when that finds nothing, once more with name = remove_trailing_slash(name); still nothing -> KeyError.
    The result carries the position of the member (ArchiveFile.id of self.files). *)
 Fixpoint first_match (dflt : str) (name : str) (ps : list iplan) (i : Z) : option (Z * iplan) :=
   match ps with
@@ -131,7 +132,10 @@ Fixpoint first_match (dflt : str) (name : str) (ps : list iplan) (i : Z) : optio
   | p :: r => if str_eqb (af_filename dflt p) name then Some (i, p) else first_match dflt name r (i + 1)
   end.
 Definition getinfo (dflt : str) (ps : list iplan) (name : str) : option (Z * iplan) :=
-  first_match dflt (remove_trailing_slash name) ps 0.
+  match first_match dflt name ps 0 with
+  | Some r => Some r
+  | None => first_match dflt (remove_trailing_slash name) ps 0
+  end.
 
 (* ------------------------------------------------------------------ *)
 (* SupportedMethods                                                     *)
@@ -166,10 +170,11 @@ Definition methods_namelist : list str :=
     [66; 90; 105; 112; 50] (* BZip2 *);
     [68; 69; 70; 76; 65; 84; 69] (* DEFLATE *);
     [68; 69; 70; 76; 65; 84; 69; 54; 52] (* DEFLATE64 *);
-    [100; 101; 108; 116; 97] (* delta *);
+    [68; 69; 76; 84; 65] (* DELTA *);
     [67; 79; 80; 89] (* COPY *);
     [80; 80; 77; 100] (* PPMd *);
     [90; 83; 116; 97; 110; 100; 97; 114; 100] (* ZStandard *);
+    [66; 114; 111; 116; 108; 105] (* Brotli *);
     [76; 90; 52; 42] (* LZ4* *);
     [66; 67; 74; 50; 42] (* BCJ2* *);
     [66; 67; 74] (* BCJ *);
@@ -220,21 +225,19 @@ Fixpoint map_res {A B} (f : A -> res B) (l : list A) : res (list B) :=
 (* ------------------------------------------------------------------ *)
 Record ainfo := mkAinfo { ai_method_names : list str; ai_solid : bool; ai_blocks : Z; ai_uncompressed : Z }.
 
-(* functools.reduce(lambda x, y: x + y, xs) -- no initial value: TypeError on the empty list *)
-Definition reduce_add (xs : list Z) : res Z :=
-  match xs with [] => Err EOther | x :: r => Ok (fold_left Z.add r x) end.
-
 (* archiveinfo() of an archive whose header graph is h; `has_filename` = the archive was opened by
-   path (self.filename is not None), otherwise `assert fname is not None` fails *)
+   path (self.filename is not None), otherwise `assert fname is not None` fails.
+   total_uncompressed = sum([f.uncompressed for f in self.files]); an archive without main streams
+   (no members, or only directories / empty files) has no methods, is not solid, has 0 blocks *)
 Definition archiveinfo (has_filename : bool) (h : header) : res ainfo :=
   do ps <- impl_plans h;                                  (* the archive opened *)
-  do total <- reduce_add (map af_uncompressed ps);
+  let total := sumZ (map af_uncompressed ps) in
   if negb has_filename then Err EOther else
   match h_streams h with
-  | None => Err EOther                                    (* _get_method_names: None.unpackinfo *)
+  | None => Ok (mkAinfo [] false 0 total)
   | Some st =>
       match si_folders st with
-      | None => Err EOther
+      | None => Err EOther                                (* _get_method_names: None.folders *)
       | Some folders =>
           let names := get_methods_names (map f_coders folders) in
           match si_sub st with
@@ -414,37 +417,55 @@ Proof.
   apply first_match_none in E. contradiction.
 Qed.
 
-(* getinfo(name + "/") finds every listed name *)
-Lemma getinfo_finds_slashed_plans dflt ps n :
+(* getinfo(name) finds every listed name as it stands, and returns the FIRST member of that name *)
+Lemma getinfo_finds_plans dflt ps n :
   In n (getnames dflt ps) ->
-  exists j p, getinfo dflt ps (n ++ [47]) = Some (j, p) /\ nth_error ps (Z.to_nat j) = Some p /\ af_filename dflt p = n.
-Proof.
-  intros H. unfold getinfo. rewrite remove_trailing_slash_app.
-  destruct (first_match_in dflt n ps 0 H) as (j & p & E). exists j, p. split; [exact E|].
-  apply first_match_some in E as (_ & E2 & E3 & _). now rewrite Z.sub_0_r in E2.
-Qed.
-
-(* getinfo(name) finds every listed name that does not itself end in '/' -- and returns the FIRST member of that name *)
-Lemma getinfo_finds_plain_plans dflt ps n :
-  In n (getnames dflt ps) -> ~ ends_with_slash n ->
   exists j p, getinfo dflt ps n = Some (j, p) /\ nth_error ps (Z.to_nat j) = Some p /\ af_filename dflt p = n
               /\ (forall q, In q (firstn (Z.to_nat j) ps) -> af_filename dflt q <> n).
 Proof.
-  intros H Hs. unfold getinfo. rewrite remove_trailing_slash_plain by exact Hs.
-  destruct (first_match_in dflt n ps 0 H) as (j & p & E). exists j, p. split; [exact E|].
+  intros H. unfold getinfo.
+  destruct (first_match_in dflt n ps 0 H) as (j & p & E). rewrite E. exists j, p. split; [reflexivity|].
   apply first_match_some in E as (_ & E2 & E3 & E4). rewrite Z.sub_0_r in E2, E4. auto.
 Qed.
 
-(* KeyError exactly when the name, with one trailing slash removed, is not listed *)
-Lemma getinfo_keyerror_iff_plans dflt ps n :
-  getinfo dflt ps n = None <-> ~ In (remove_trailing_slash n) (getnames dflt ps).
-Proof. unfold getinfo. apply first_match_none. Qed.
+(* getinfo(name + "/") finds it too: the member stored as name/ when there is one, otherwise the first member name *)
+Lemma getinfo_finds_slashed_plans dflt ps n :
+  In n (getnames dflt ps) ->
+  exists j p, getinfo dflt ps (n ++ [47]) = Some (j, p) /\ nth_error ps (Z.to_nat j) = Some p
+              /\ (af_filename dflt p = n ++ [47]
+                  \/ (~ In (n ++ [47]) (getnames dflt ps) /\ af_filename dflt p = n)).
+Proof.
+  intros H. unfold getinfo.
+  destruct (first_match dflt (n ++ [47]) ps 0) as [[j p]|] eqn:E1.
+  - exists j, p. split; [reflexivity|]. apply first_match_some in E1 as (_ & E2 & E3 & _).
+    rewrite Z.sub_0_r in E2. auto.
+  - rewrite remove_trailing_slash_app. apply first_match_none in E1.
+    destruct (first_match_in dflt n ps 0 H) as (j & p & E). exists j, p. split; [exact E|].
+    apply first_match_some in E as (_ & E2 & E3 & _). rewrite Z.sub_0_r in E2. auto.
+Qed.
 
-(* the full statement "every listed name is found" is false: a listed name that itself ends in '/' *)
+(* KeyError exactly when neither the name nor the name with one trailing slash removed is listed *)
+Lemma getinfo_keyerror_iff_plans dflt ps n :
+  getinfo dflt ps n = None <-> ~ In n (getnames dflt ps) /\ ~ In (remove_trailing_slash n) (getnames dflt ps).
+Proof.
+  unfold getinfo. destruct (first_match dflt n ps 0) as [r|] eqn:E.
+  - split; [discriminate|]. intros [H _]. exfalso. apply H.
+    destruct r as [j p]. apply first_match_some in E as (_ & E2 & E3 & _).
+    unfold getnames, namelist. rewrite <- E3. apply in_map. eapply nth_error_In; eauto.
+  - apply first_match_none in E. rewrite first_match_none. unfold getnames, namelist in *. tauto.
+Qed.
+
+(* whatever getinfo returns is a member whose name is the argument, or the argument without one trailing slash *)
+Lemma getinfo_sound_plans dflt ps n j p :
+  getinfo dflt ps n = Some (j, p) ->
+  nth_error ps (Z.to_nat j) = Some p /\ (af_filename dflt p = n \/ af_filename dflt p = remove_trailing_slash n).
+Proof.
+  unfold getinfo. destruct (first_match dflt n ps 0) as [r|] eqn:E; intros H.
+  - inversion H; subst. apply first_match_some in E as (_ & E2 & E3 & _). rewrite Z.sub_0_r in E2. auto.
+  - apply first_match_some in H as (_ & E2 & E3 & _). rewrite Z.sub_0_r in E2. auto.
+Qed.
+
 Definition slash_plan : iplan := mkIPlan (Some [100; 47] (* d/ *)) 2 (-1) 0 0 None None (Some 16) 0.
-Lemma getinfo_total_refuted_plans :
-  exists dflt ps n, In n (getnames dflt ps) /\ getinfo dflt ps n = None.
-Proof. exists [], [slash_plan], [100; 47] (* d/ *). split; [left; reflexivity | reflexivity]. Qed.
 
 (* ---------- the assignment keeps order, names, attributes ---------- *)
 Definition entry_kind (e : fileent) : Z :=
@@ -603,6 +624,21 @@ Proof.
   apply crc32_update_range. lia.
 Qed.
 
+(* "every CRC the format stores for a member is listed" is false: a folder-level CRC of a folder with one file is the
+   file's CRC by the format (Spec.s_merge_crcs), but SubstreamsInfo._read copies it to the member only inside its
+   `if pid == CRC` branch -- and SubStreamsInfo has no CRC record when every sub-stream CRC is known from its folder.
+   Witness: one member "a" = "abc" (COPY), CRC 891568578 stored at folder level, raw header. *)
+Definition folder_crc_bytes : bytes :=
+  [1; 4; 6; 0; 1; 9; 3; 0; 7; 11; 1; 0; 1; 1; 0; 12; 3; 10; 1; 194; 65; 36; 53; 0; 8; 0; 0; 5; 1; 17; 5; 0; 97; 0; 0; 0;
+   21; 6; 1; 0; 32; 0; 0; 0; 0; 0].
+Lemma listed_crc_folder_refuted_header :
+  match s_header 4096 folder_crc_bytes, parse_header 4096 folder_crc_bytes with
+  | Ok sh, Ok h => s_valid sh = true /\ map pl_crc (spec_plans sh) = [Some 891568578]
+                   /\ exists ps, impl_plans h = Ok ps /\ map af_crc32 ps = [None] /\ map af_uncompressed ps = [3]
+  | _, _ => False
+  end.
+Proof. vm_compute. split; [reflexivity|]. split; [reflexivity|]. eexists. repeat split. Qed.
+
 (* ---------- against the specification reader (Spec.v) ---------- *)
 Lemma plans_agree_Forall2 ss : forall i ps,
   plans_agree i ss ps = true -> Forall2 (fun s p => exists j, plan_agrees j s p = true) ss ps.
@@ -719,10 +755,9 @@ Proof.
   apply filter_NoDup. apply nodupb_NoDup. vm_compute. reflexivity.
 Qed.
 
-(* the method table entries whose names the display list lacks: exactly DELTA and Brotli *)
-Definition undisplayed : list method :=
-  filter (fun m => negb (existsb (str_eqb (m_name m)) methods_namelist)) supported_methods.
-Lemma undisplayed_methods : map m_name undisplayed = [[68; 69; 76; 84; 65] (* DELTA *); [66; 114; 111; 116; 108; 105] (* Brotli *)].
+(* every name of the method table is in the display list *)
+Lemma table_names_displayed :
+  forallb (fun m => existsb (str_eqb (m_name m)) methods_namelist) supported_methods = true.
 Proof. vm_compute. reflexivity. Qed.
 
 Lemma coder_names_supported (c : coder) (m : method) :
@@ -732,36 +767,22 @@ Proof.
   rewrite Hc. apply str_eqb_refl.
 Qed.
 
-(* every coder whose method the display list knows by the table's name is reported *)
-Lemma method_names_complete_partial (cl : list (list coder)) cs c m :
+(* every supported coder present in some folder is named *)
+Lemma method_names_complete_all (cl : list (list coder)) cs c m :
   In cs cl -> In c cs -> In m supported_methods -> c_method c = m_id m ->
-  ~ In m undisplayed -> In (m_name m) (get_methods_names cl).
+  In (m_name m) (get_methods_names cl).
 Proof.
-  intros Hcs Hc Hm Hid Hu. apply method_names_char. split.
-  - unfold undisplayed in Hu. rewrite filter_In in Hu.
-    destruct (existsb (str_eqb (m_name m)) methods_namelist) eqn:E; [now apply in_existsb_str|].
-    exfalso. apply Hu. split; [exact Hm | reflexivity].
+  intros Hcs Hc Hm Hid. apply method_names_char. split.
+  - pose proof table_names_displayed as T. rewrite forallb_forall in T. apply in_existsb_str. now apply T.
   - exists cs, c. repeat split; auto. now apply coder_names_supported.
 Qed.
 
-(* the full statement "every supported coder present is named" is false: Delta and Brotli coders are never named *)
 Definition delta_coder : coder := mkCoder [3] 1 1 (Some [0]).
 Definition brotli_coder : coder := mkCoder [4; 247; 17; 2] 1 1 (Some [1; 0; 5]).
-Lemma method_names_complete_refuted :
-  exists cl cs c m, In cs cl /\ In c cs /\ In m supported_methods /\ c_method c = m_id m
-                    /\ ~ In (m_name m) (get_methods_names cl).
-Proof.
-  exists [[delta_coder; mkCoder [33] 1 1 (Some [24])]], [delta_coder; mkCoder [33] 1 1 (Some [24])], delta_coder,
-         (mkMethod [3] [68; 69; 76; 84; 65] (* DELTA *) 3 1).
-  split; [left; reflexivity|]. split; [left; reflexivity|]. split; [right; right; left; reflexivity|].
-  split; [reflexivity|].
-  intros H. apply in_existsb_str in H. vm_compute in H. discriminate.
-Qed.
-Lemma method_names_brotli_refuted :
-  get_methods_names [[brotli_coder]] = [] /\ In [66; 114; 111; 116; 108; 105] (* Brotli *) (map m_name supported_methods)
-  /\ get_filter_id brotli_coder = Some 55.
-Proof. vm_compute. repeat split. right; right; right; right; right; right; right; right; right; right; right; right; right; right.
-  left. reflexivity. Qed.
+Lemma method_names_delta_brotli :
+  get_methods_names [[delta_coder; mkCoder [33] 1 1 (Some [24])]; [brotli_coder]]
+  = [[76; 90; 77; 65; 50] (* LZMA2 *); [68; 69; 76; 84; 65] (* DELTA *); [66; 114; 111; 116; 108; 105] (* Brotli *)].
+Proof. vm_compute. reflexivity. Qed.
 
 (* ---------- needs_password ---------- *)
 (* over the method table: the filter id found for a method id names a crypto method exactly for 7zAES *)
@@ -854,72 +875,67 @@ Proof.
 Qed.
 
 (* ---------- archiveinfo ---------- *)
-Lemma fold_left_add_shift (l : list Z) (a : Z) : fold_left Z.add l a = a + fold_left Z.add l 0.
-Proof. revert a; induction l as [|x r IH]; intros a; simpl; [lia|]. rewrite (IH (a + x)), (IH x). lia. Qed.
-
-Lemma reduce_add_sum (xs : list Z) (t : Z) : reduce_add xs = Ok t -> t = sumZ xs /\ xs <> [].
-Proof.
-  destruct xs as [|x r]; simpl; [discriminate|]. intros H; inversion H; subst. split; [|discriminate].
-  unfold sumZ. simpl. reflexivity.
-Qed.
-
 Lemma archiveinfo_agrees_header (hn : bool) (h : header) (a : ainfo) :
   archiveinfo hn h = Ok a ->
-  exists ps st folders sub,
-    impl_plans h = Ok ps /\ ps <> [] /\ h_streams h = Some st /\ si_folders st = Some folders /\ si_sub st = Some sub
-    /\ ai_uncompressed a = sumZ (map ip_size ps)
-    /\ ai_blocks a = zlen folders
-    /\ (ai_solid a = true <-> exists n, In n (s_nums sub) /\ 1 < n)
-    /\ ai_method_names a = get_methods_names (map f_coders folders).
+  exists ps,
+    impl_plans h = Ok ps /\ ai_uncompressed a = sumZ (map ip_size ps)
+    /\ match h_streams h with
+       | None => ai_blocks a = 0 /\ ai_solid a = false /\ ai_method_names a = []
+       | Some st =>
+           exists folders sub,
+             si_folders st = Some folders /\ si_sub st = Some sub
+             /\ ai_blocks a = zlen folders
+             /\ (ai_solid a = true <-> exists n, In n (s_nums sub) /\ 1 < n)
+             /\ ai_method_names a = get_methods_names (map f_coders folders)
+       end.
 Proof.
   unfold archiveinfo. intros H.
   destruct (impl_plans h) as [ps|] eqn:Ei; simpl in H; [|discriminate].
-  destruct (reduce_add (map af_uncompressed ps)) as [t|] eqn:Er; simpl in H; [|discriminate].
   destruct hn; simpl in H; [|discriminate].
-  destruct (h_streams h) as [st|] eqn:Es; [|discriminate].
-  destruct (si_folders st) as [folders|] eqn:Efo; [|discriminate].
-  destruct (si_sub st) as [sub|] eqn:Esu; [|discriminate].
-  inversion H; subst; clear H. apply reduce_add_sum in Er as [Et Hne].
-  exists ps, st, folders, sub. simpl.
-  split; [reflexivity|]. split; [intros E; subst ps; now apply Hne|].
-  split; [reflexivity|]. split; [exact Efo|]. split; [exact Esu|].
-  split; [exact Et|]. split; [reflexivity|]. split; [|reflexivity]. split.
-  - intros He. apply existsb_exists in He as (n & Hn & Hlt). exists n. split; [exact Hn | lia].
-  - intros (n & Hn & Hlt). apply existsb_exists. exists n. split; [exact Hn | lia].
+  exists ps. split; [reflexivity|].
+  destruct (h_streams h) as [st|] eqn:Es.
+  - destruct (si_folders st) as [folders|] eqn:Efo; [|discriminate].
+    destruct (si_sub st) as [sub|] eqn:Esu; [|discriminate].
+    inversion H; subst; clear H. simpl. split; [reflexivity|].
+    exists folders, sub. split; [reflexivity|]. split; [reflexivity|]. split; [reflexivity|]. split; [|reflexivity]. split.
+    + intros He. apply existsb_exists in He as (n & Hn & Hlt). exists n. split; [exact Hn | lia].
+    + intros (n & Hn & Hlt). apply existsb_exists. exists n. split; [exact Hn | lia].
+  - inversion H; subst; clear H. simpl. repeat split.
 Qed.
 
-(* archiveinfo() answers for every archive opened by path that has at least one member and main streams with
-   folders and SubStreamsInfo *)
-Lemma archiveinfo_partial_header (h : header) ps st folders sub :
-  impl_plans h = Ok ps -> ps <> [] -> h_streams h = Some st -> si_folders st = Some folders -> si_sub st = Some sub ->
+(* archiveinfo() answers for every archive opened by path -- members or not, main streams or not -- as long as
+   main streams, when present, come with SubStreamsInfo (an archive with data members and no SubStreamsInfo does
+   not open at all: impl_plans is Err) *)
+Lemma archiveinfo_total_header (h : header) ps :
+  impl_plans h = Ok ps ->
+  (forall st, h_streams h = Some st -> si_folders st <> None /\ si_sub st <> None) ->
   exists a, archiveinfo true h = Ok a.
 Proof.
-  intros Hi Hne Hs Hf Hsub. unfold archiveinfo. rewrite Hi. simpl.
-  destruct ps as [|p r]; [contradiction|]. simpl. rewrite Hs, Hf, Hsub. eauto.
+  intros Hi Hsub. unfold archiveinfo. rewrite Hi. simpl.
+  destruct (h_streams h) as [st|] eqn:Hs; [|eauto].
+  destruct (Hsub st eq_refl) as [Hf Hsu].
+  destruct (si_folders st) as [folders|]; [|contradiction].
+  destruct (si_sub st) as [sub|]; [eauto | contradiction].
 Qed.
 
-(* ... but not for every archive: the empty archive (reduce without initial value) *)
+(* the empty archive and an archive of directories / empty files stored without main streams *)
 Definition empty_header : header := mkHeader None None [].
-Lemma archiveinfo_empty_refuted_header :
-  parse_header 100 [] = Ok empty_header /\ parse_header 100 [1; 0] = Ok empty_header
-  /\ impl_plans empty_header = Ok [] /\ archiveinfo true empty_header = Err EOther.
-Proof. vm_compute. repeat split. Qed.
-
-(* ... and not for an archive whose members are all directories / empty files stored without main streams *)
 Definition nostreams_header : header :=
   mkHeader None (Some [mkFile true (Some [100] (* d *)) None None None (Some (Some 16));
                        mkFile true (Some [101] (* e *)) None None None (Some (Some 32))]) [false; true].
-Lemma archiveinfo_nostreams_refuted_header :
-  (exists ps, impl_plans nostreams_header = Ok ps /\ map (af_filename []) ps = [[100] (* d *); [101] (* e *)])
-  /\ archiveinfo true nostreams_header = Err EOther.
+Lemma archiveinfo_empty_header :
+  parse_header 100 [] = Ok empty_header /\ parse_header 100 [1; 0] = Ok empty_header
+  /\ impl_plans empty_header = Ok [] /\ archiveinfo true empty_header = Ok (mkAinfo [] false 0 0).
+Proof. vm_compute. repeat split. Qed.
+Lemma archiveinfo_nostreams_header :
+  (exists ps, impl_plans nostreams_header = Ok ps /\ map (af_filename []) ps = [[100]; [101]])
+  /\ archiveinfo true nostreams_header = Ok (mkAinfo [] false 0 0).
 Proof. split; [eexists; split; vm_compute; reflexivity | vm_compute; reflexivity]. Qed.
 
 (* opened from a stream without a name: `assert fname is not None` *)
-Lemma archiveinfo_stream_header (h : header) : archiveinfo false h = Err EOther \/ exists e, archiveinfo false h = Err e.
-Proof.
-  unfold archiveinfo. destruct (impl_plans h) as [ps|e]; simpl; [|right; eauto].
-  destruct (reduce_add (map af_uncompressed ps)) as [t|e]; simpl; [left; reflexivity | right; eauto].
-Qed.
+Lemma archiveinfo_stream_header (h : header) : exists e, archiveinfo false h = Err e.
+Proof. unfold archiveinfo. destruct (impl_plans h) as [ps|e]; simpl; eauto. Qed.
+
 
 (* ================================================================== *)
 (* Header-level statements (what props/C10.v exports)                  *)
@@ -946,9 +962,18 @@ Proof.
   exists row. repeat split; assumption.
 Qed.
 
-Lemma getinfo_total_refuted_header :
-  exists dflt h ps n, impl_plans h = Ok ps /\ In n (getnames dflt ps) /\ getinfo dflt ps n = None.
-Proof.
-  exists [], (mkHeader None (Some [mkFile true (Some [100; 47] (* d/ *)) None None None (Some (Some 16))]) [false]).
-  eexists. exists [100; 47] (* d/ *). split; [vm_compute; reflexivity|]. split; [left; reflexivity | reflexivity].
-Qed.
+Lemma getinfo_total_header dflt h ps n :
+  impl_plans h = Ok ps -> In n (getnames dflt ps) ->
+  (exists j p, getinfo dflt ps n = Some (j, p) /\ nth_error ps (Z.to_nat j) = Some p /\ af_filename dflt p = n
+               /\ (forall q, In q (firstn (Z.to_nat j) ps) -> af_filename dflt q <> n))
+  /\ (exists j p, getinfo dflt ps (n ++ [47]) = Some (j, p) /\ nth_error ps (Z.to_nat j) = Some p
+                  /\ (af_filename dflt p = n ++ [47]
+                      \/ (~ In (n ++ [47]) (getnames dflt ps) /\ af_filename dflt p = n))).
+Proof. intros _ H. split; [now apply getinfo_finds_plans | now apply getinfo_finds_slashed_plans]. Qed.
+
+Lemma getinfo_slash_name_header :
+  exists ps, impl_plans (mkHeader None (Some [mkFile true (Some [100; 47]) None None None (Some (Some 16))]) [false]) = Ok ps
+             /\ option_map fst (getinfo [] ps [100; 47]) = Some 0 /\ option_map fst (getinfo [] ps [100; 47; 47]) = Some 0
+             /\ getinfo [] ps [100] = None.
+Proof. eexists. split; [vm_compute; reflexivity|]. repeat split. Qed.
+
